@@ -738,6 +738,61 @@ Section Find.
 End Find.
 
 (* ------------------------------------------------------------------ *)
+(* what the dhstore server is asked                                     *)
+
+Section Requests.
+  Variable sha : bytes -> bytes.
+  Variable seal : bytes -> bytes -> bytes -> bytes.
+  Variable open : bytes -> bytes -> bytes -> option bytes.
+  Local Notation I := (ideal sha seal open).
+
+  Definition hashed_query (mh : bytes) (q : query) : Prop :=
+    q = QMh (mh_encode DBL_SHA2_256 (sha (second_prefix ++ mh))) \/ exists vk, q = QMd (sha vk).
+
+  Lemma find_one_queries_hashed mh evk qs :
+    find_one_queries I mh evk = Ok qs -> Forall (hashed_query mh) qs.
+  Proof.
+    unfold find_one_queries.
+    destruct (decrypt_value_key I evk mh) as [vk| |]; try discriminate.
+    2:{ intro H; apply Ok_inj in H; subst; constructor. }
+    destruct (split_value_key vk) as [[pid ctx]| |]; try discriminate.
+    2:{ intro H; apply Ok_inj in H; subst; constructor. }
+    cbn. intro H. apply Ok_inj in H. subst. constructor; [|constructor]. right. exists vk. reflexivity.
+  Qed.
+
+  Lemma queries_loop_hashed mh evks : forall qs,
+    queries_loop (find_one_queries I mh) evks = Ok qs -> Forall (hashed_query mh) qs.
+  Proof.
+    induction evks as [|e r IH]; intros qs H; cbn [queries_loop] in H.
+    - apply Ok_inj in H. subst. constructor.
+    - destruct (find_one_queries I mh e) as [a| |] eqn:E; try discriminate. cbn [bind] in H.
+      destruct (queries_loop (find_one_queries I mh) r) as [b| |] eqn:L; try discriminate. cbn [bind] in H.
+      apply Ok_inj in H. subst. apply Forall_app. split; [eapply find_one_queries_hashed; eauto|apply IH; reflexivity].
+  Qed.
+
+  (* every request of the reader-privacy find names the SECOND hash of the multihash or the
+     hash of a value key: the multihash, the value keys and the metadata never leave the
+     client; the request path is a function of that hash alone *)
+  Theorem requests_hashed st mh qs :
+    find_queries I st mh = Ok qs ->
+    Forall (hashed_query mh) qs /\
+    Forall (fun p => p = mh_path_prefix ++ b58 (mh_encode DBL_SHA2_256 (sha (second_prefix ++ mh))) \/
+                     exists vk, p = md_path_prefix ++ b58 (sha vk)) (map request_path qs).
+  Proof.
+    intro H.
+    assert (F : Forall (hashed_query mh) qs).
+    { unfold find_queries in H. rewrite second_multihash_ideal in H. cbn [bind] in H.
+      destruct (s_find_mh st _) as [groups| |]; try discriminate.
+      - destruct (queries_loop (find_one_queries I mh) (concat groups)) as [l| |] eqn:L; try discriminate.
+        cbn [bind] in H. apply Ok_inj in H. subst. constructor; [left; reflexivity|eapply queries_loop_hashed; eauto].
+      - apply Ok_inj in H. subst. constructor; [left; reflexivity|constructor]. }
+    split; [exact F|].
+    apply Forall_map. eapply Forall_impl; [|exact F].
+    intros q [->|[vk ->]]; [left; reflexivity|right; exists vk; reflexivity].
+  Qed.
+End Requests.
+
+(* ------------------------------------------------------------------ *)
 (* the premises of the theorems can be met (non-vacuity), and small runs  *)
 
 Module Witness.
